@@ -1,8 +1,9 @@
 (* C17 — wire codec: s-expression <-> operation sequences / results and sink log. *)
 (* DISPATCH 1700 c17_run *)
 (* DISPATCH 1701 c17_spec *)
+(* DISPATCH 1702 c17_race_ok *)
 From Coq Require Import List ZArith NArith Bool.
-From MV Require Import Common.Sx C17.Model C17.Spec.
+From MV Require Import Common.Sx C17.Model C17.Spec C17.Race.
 Import ListNotations.
 
 (* context: (thread runtime+1), 0 = no current runtime *)
@@ -47,3 +48,17 @@ Definition c17_run (x : sx) : sx :=
 Definition c17_spec (x : sx) : sx :=
   let '(s, rs) := spec_run rinit (map dec_op (sx_list (sx_nth x 0))) in
   L [L (map enc_res rs); L (map enc_ev (r_log s))].
+
+(* race runs: ((threads per tl) ((thread entry ok) ...) (log))  ->  1 when the observation satisfies the property.
+   Sink 1 is the attached one, sink 2 the thread-local test sink of thread 0 (when tl = 1). *)
+Definition dec_ev (x : sx) : ev :=
+  match sx_tag x with 0%Z => Recv (sx_n (sx_arg x 0)) (sx_n (sx_arg x 1)) | _ => Joined (sx_n (sx_arg x 0)) end.
+Definition c17_race_ok (x : sx) : sx :=
+  let case := sx_nth x 0 in
+  let imp := sx_nth x 1 in
+  let tl := sx_bool (sx_nth case 2) in
+  let outs := map (fun o => let t := sx_n (sx_nth o 0) in
+                            ((if tl && N.eqb t 0 then 2 else 1)%N, sx_n (sx_nth o 1), sx_bool (sx_nth o 2)))
+                  (sx_list (sx_nth imp 0)) in
+  let log := map dec_ev (sx_list (sx_nth imp 1)) in
+  of_bool (race_ok 1 outs log && Nat.eqb (count (ev_is_joined 1) log) 1).
